@@ -2,6 +2,7 @@
 package main
 
 import (
+	"encoding/json"
 	"fmt"
 	"os"
 	"sort"
@@ -38,12 +39,25 @@ func main() {
 		fmt.Fprintln(os.Stderr, "unknown property", os.Args[1])
 		os.Exit(2)
 	}
-	c := run.Open(p.ID, p.Level)
-	if len(os.Args) >= 4 && os.Args[2] == "--replay" {
-		if p.Replay == nil {
-			fmt.Println("replay not supported for", p.ID, "- re-run the check with the seed stored in the file")
+	replay := len(os.Args) >= 4 && os.Args[2] == "--replay"
+	if replay && p.Replay == nil {
+		// generic replay: every case list is determined by (seed, tier), which the replay file records
+		var doc struct {
+			Seed int64  `json:"seed"`
+			Tier string `json:"tier"`
+			Sig  string `json:"sig"`
+		}
+		b, err := os.ReadFile(os.Args[3])
+		if err != nil || json.Unmarshal(b, &doc) != nil {
+			fmt.Println("cannot read replay file", os.Args[3])
 			os.Exit(2)
 		}
+		os.Setenv("VERIF_SEED", fmt.Sprint(doc.Seed))
+		os.Setenv("VERIF_TIER", doc.Tier)
+		fmt.Printf("replaying %s with seed %d tier %s (expecting signature %s)\n", p.ID, doc.Seed, doc.Tier, doc.Sig)
+	}
+	c := run.Open(p.ID, p.Level)
+	if replay && p.Replay != nil {
 		p.Replay(c, os.Args[3])
 	} else {
 		p.Main(c)
